@@ -675,7 +675,7 @@ def m_extract_mutates_original(sources):
 
     class T(S):
         def on_function(self, n):
-            n.body.insert(1, ast.parse('model.cells.pop(None, None)').body[0])
+            n.body.insert(1, ast.parse('model.ranges.update({"extracted": True})').body[0])
             self.hits += 1
             return n
     return _edit(sources, 'model.py', T)
